@@ -7,8 +7,8 @@ open A2Verif.Fs.Dos3x
 
 theorem coh_closed {raw : Raw} {c : Nat} (h : Shaped 256 raw) : Coh ⟨raw, c, none⟩ := ⟨h, fun _ hv => by cases hv⟩
 
-theorem exec_coh {d : Disk} (h : Coh d) (steps : List Step) : Coh (exec d steps).2 :=
-  (exec_sim steps (DSim.same h)).2.coh'
+theorem exec_coh {d : Disk} (h : Coh d) (steps : List Step) (rp : Repairs := {}) : Coh (exec d steps rp).2 :=
+  (exec_sim steps (DSim.same h) rp).2.coh'
 
 /-- a blank 35-track image with `c` sectors per track -/
 def blank (c : Nat) : Disk :=
